@@ -127,6 +127,24 @@ Theorem C05_properties_stacked : forall m r, translate prims m = Ok r ->
 Proof. exact (properties_stacked_acc prims). Qed.
 Print Assumptions C05_properties_stacked.
 
+(** Methods of an accepted meta-model: those of the bases (final lists, declared order of
+    the bases; their names are pairwise distinct — a method reaching a class along two
+    paths is a reported error, so nothing is de-duplicated) followed by the own ones, whose
+    names differ from all inherited ones (overriding is a reported error). *)
+Theorem C05_methods_stacked : forall m r, translate prims m = Ok r ->
+  exists mmap : list (name * list (ident name)),
+    forall c, In c m ->
+      exists ci, class_ir r (c_name c) = Some ci
+        /\ i_methods ci = map pair_owner (lk (c_name c) mmap)
+        /\ (i_is_cp ci = false ->
+              let inh := flat_map (fun b => lk b mmap) (c_bases c) in
+              lk (c_name c) mmap = inh ++ own_ids (c_name c) (c_methods c)
+              /\ NoDup (map id_val inh)
+              /\ forall x, In x (own_ids (c_name c) (c_methods c)) ->
+                           ~ In (id_val x) (map id_val inh)).
+Proof. exact (methods_stacked_acc prims). Qed.
+Print Assumptions C05_methods_stacked.
+
 (** The same equation for the pass itself, whatever is stacked and whichever classes are
     skipped (also for models that are rejected later). *)
 Theorem C05_stacked_equation : forall m (A : Type) (skip : name -> bool) (own : cls -> list A),
@@ -139,6 +157,31 @@ Theorem C05_stacked_equation : forall m (A : Type) (skip : name -> bool) (own : 
          ++ own_ids (c_name c) (own c).
 Proof. exact (stacked_fold_thm prims). Qed.
 Print Assumptions C05_stacked_equation.
+
+(** Who contributes: for any payload and any set of skipped classes, the stacked list of a
+    class consists exactly of the own items of the classes it reaches through its bases
+    (itself included), passing only through classes that take part in the stacking. *)
+Theorem C05_stacked_members : forall m (A : Type) (skip : name -> bool) (own : cls -> list A),
+  wf prims m -> forall order, topo_sort prims m = Ok order ->
+  forall c, In c m -> forall x,
+    In x (lk (c_name c) (stack_ids prims m skip own order))
+    <-> contributed prims m A skip own (c_name c) x.
+Proof. exact (stacked_members_thm prims). Qed.
+Print Assumptions C05_stacked_members.
+
+(** In particular the invariants of a class (or constrained primitive) of an accepted
+    meta-model are exactly its own and those of its ancestors. *)
+Theorem C05_invariants_members : forall m r, translate prims m = Ok r ->
+  exists imap : list (name * list (ident name)),
+    forall c, In c m ->
+      exists ci, class_ir r (c_name c) = Some ci
+        /\ i_invs ci = map pair_owner (lk (c_name c) imap)
+        /\ forall x, In x (lk (c_name c) imap) <->
+             exists a, In a m
+               /\ (c_name c = c_name a \/ clos_trans name (base prims m) (c_name c) (c_name a))
+               /\ In x (own_ids (c_name a) (c_invs a)).
+Proof. exact (invariants_members_acc prims). Qed.
+Print Assumptions C05_invariants_members.
 
 (** The in-lined constructor of every class of an accepted meta-model consists
     of assignments only (no super-constructor call is left) and assigns every property of
